@@ -8,7 +8,8 @@
  * Input (stdin), one case per line:
  *   <fixed-ignored> <NONE|SINGLE|NESTED> <regex|glob|simple> <UFTRACE_FILTER|-> <lib names a,b|-> | <ev> <ev> ...
  *   ev = c:<name> call   r:<name> return   C:<name> c_call   R:<name> c_return
- *        X:<name> c_exception   o:<name> some other event string ("exception")
+ *        X:<name> c_exception   o:<name> some other event string ("exception") with a C
+ *        function as argument (sys.setprofile never sends one; the code's fall-through)
  * Output per case:
  *   MODEL <the same line>
  *   IMPL  <E<addr> | X ...> | <count_in> <count_out> <libcall_count> | <addr>:<T|P>:<name> ...
@@ -291,7 +292,7 @@ int main(void)
 				fprintf(stderr, "bad event %s\n", tok);
 				return 2;
 			}
-			if (tok[0] == 'c' || tok[0] == 'r' || tok[0] == 'o') {
+			if (tok[0] == 'c' || tok[0] == 'r') {
 				frame = get_py_frame(name, is_lib);
 				arg = Py_None;
 			}
